@@ -3,6 +3,7 @@ CONSTANTS
   Configs <- ConfigsOne
   MaxOps = 0
   Defects = {}
+  SplitDestroy = FALSE
   LeaseOrder = "any"
 SPECIFICATION TraceSpec
 POSTCONDITION Accepted
